@@ -63,7 +63,9 @@ CHECKS["C19"] = dict(
          "shape of the argument value (tuples / frozensets / objects / wrappers holding mutable objects included): an "
          "ImmutableStructure and a field declared immutable share nothing with their arguments when the tables exempt only atomic "
          "types, every other table entry leaks on a constructed value, a mutable owner shares nothing through a fully typed "
-         "field (induction over the declared type). The effect kind of each copy/alias site AND the isinstance tables / wrapper "
+         "field (induction over the declared type); the tables generated from the CURRENT source satisfy those hypotheses, so both "
+         "safety statements hold of it outright (C19_immutable_structure_intake_safe_now, C19_immutable_field_intake_safe_now; "
+         "Struct/AliasIntakeToday.v stops compiling when an exemption for a mutable type returns). The effect kind of each copy/alias site AND the isinstance tables / wrapper "
          "gates are regenerated from the AST of /repo on every run (Gen/AliasSites.v, Gen/AliasTables.v, module constants such as "
          "_immutable_types resolved); the effect observed on the real implementation (deep snapshots of all arguments, mutation "
          "of every returned/argument container -- below tuples, frozensets, objects, foreign wrappers and, for immutable owners, "
@@ -214,10 +216,12 @@ _c("C09",
    "C09_module_dropped_reference); a recursive definition or a cycle never executes in any order (C09_module_self_reference, "
    "C09_module_no_cycle); the lexical theorem for whole modules (C09_module_relex). The layout of write_code_from_schema (what is "
    "written, in which order, over which definitions) is regenerated from its AST on every run (Gen/ModuleLayout.v, fail closed): it "
-   "writes a class for every definition, then the main class (C09_module_layout, C09_module_executes, C09_module_total). The "
+   "writes a class for every definition, then the main class (C09_module_layout, C09_module_executes, C09_module_total); the "
+   "generator produces a class statement, and the writer a module, for EVERY class description (C09_generator_total, "
+   "C09_module_always). The "
    "required list survives schema -> code -> schema up to order iff every defaulted property is listed (C09_required_roundtrip, "
    "_only_if). Full statements that are false of the faithful model are kept as Definitions with refutation witnesses "
-   "(declaration-order forward reference, recursion, crash without required). The rest of the back-mapping clause and the "
+   "(declaration-order forward reference, recursion, quoting). The rest of the back-mapping clause and the "
    "equivalence clause are NOT proved; they are evaluated on the implementation through all three entry points (compile/exec of the "
    "returned strings and of the written file, structure_to_schema round trip of schema and reached definitions, independent "
    "Draft4Validator resolving $ref itself, documents mostly valid with single-property corruptions).",
@@ -233,7 +237,9 @@ _c("C12",
    "and of the derivation operators followed by the same define (Struct/Derive.v): exact field sets and required sets per "
    "operator (C12_fields, C12_required, C12_required_general), never a subclass, retained members are the source's field objects "
    "(same vset, immutability, default), compositions of ANY length are the fold of the documented set operations (C12_compose, "
-   "induction over the operator list), bad names raise TypeError, the source and the rest of the environment are unchanged. "
+   "induction over the operator list), bad names raise TypeError, the source and the rest of the environment are unchanged, "
+   "no operator fails on its own (C12_operators_total: a source with a Constant member included), the derived class sees the "
+   "_ignore_none its source sees, own or inherited (C12_ignore_none, C12_ignore_none_effective). "
    "Class statements and derivations are run on typedpy and compared step by step inside Coq; documented sets, issubclass and "
    "source-vs-derived accept/reject/normal form are evaluated on the implementation.",
    "Trusted: Coq kernel + vm_compute; Define.v/Derive.v hand-written; harness/defgen.py; CPython metaclass protocol.",
